@@ -937,6 +937,12 @@ class vPeriod(TimeBase):
         if tzid and tzid != 'UTC':
             # UTC is written with the Z suffix and no TZID (RFC 5545, 3.3.5)
             self.params['TZID'] = tzid
+        if not by_duration and end.tzinfo is not None and tzid_from_dt(end) != tzid:
+            # both are written under the TZID of the start: same instant, expressed in that time zone
+            try:
+                end = end.astimezone(start.tzinfo)
+            except OverflowError as e:
+                raise ValueError(f"End of the period is out of range: {e}") from e
 
         self.start = start
         self.end = end
